@@ -3,7 +3,11 @@ from checks import futurelib as fl
 
 
 def run(ctx):
-    rp = fl.build(ctx)
+    # all builds of the replayer side by side: int, int&, the 64-byte copy-counted object, and the move-only instance-counted
+    # object with a moved-from flag (natural alignment / over-aligned, rotating with the seed in the quick tier)
+    trkname = "trk64" if ctx.seed % 2 == 0 else "trk"
+    builds = fl.build_all(ctx, ["int", "ref", "big", trkname] + ([] if ctx.quick else ["trk64" if trkname == "trk" else "trk"]))
+    rp = builds["int"]
     rm = fl.resolver_mixes()
     wsets = [[], ["co"], ["bl"], ["cb", "hv"]]
     jobs = []
@@ -31,15 +35,45 @@ def run(ctx):
     fl.run_mixes_fine(ctx, rp, fine, max_paths=400 if ctx.quick else None)
     # other instantiations and entry points of the same protocol: future<int&> (state value_ref), a 64-byte tracked payload, and
     # promise::bind(args...) whose closure is called, called and then destroyed, or destroyed without ever being called
-    rpr = fl.build_ref(ctx)
+    rpr = builds["ref"]
     refjobs = [(["val", "exc"], ["hv"]), (["val", "drop"], ["co", "hv"]), (["val", "val"], ["bl"]), (["mdes", "val"], ["cb", "hv"]), (["val", "dtor"], ["hv"])]
     fl.run_mixes(ctx, rpr, refjobs if not ctx.quick else refjobs[:3] + [refjobs[3 + ctx.seed % 2]], max_paths=200 if ctx.quick else None, tagp="ref")
-    rpb = fl.build_big(ctx)
+    rpb = builds["big"]
     bindjobs = [(["dtor"], ["co"]), (["val", "dtor"], ["bl"]), (["dtor"], ["hv", "cb"]), (["val", "dtor"], ["co", "hv"]), (["val"], ["bl", "co"])]
     fl.run_mixes(ctx, rpb, bindjobs if not ctx.quick else bindjobs[:3], max_paths=200 if ctx.quick else None, tagp="bind", bind=True)
+    more = []
+    mp_paths = 200 if ctx.quick else None
+    # the callback-promise make_promise<T>(fn): the callback is the ONLY observer of the result, so "a dropped promise is observed
+    # as no-value rather than as a hang" means the callback runs exactly once for every kind of resolution - value, exception, drop,
+    # destruction (of the promise or of a promise it was moved to), and another promise assigned over it (kind "ovw")
+    mpjobs = [(["val", "drop"], ["mp"]), (["drop", "exc"], ["mp"]), (["dtor"], ["mp"]), (["mdes", "val"], ["mp"]), (["masg"], ["mp"]),
+              (["ovw"], ["mp"]), (["val", "ovw", "dtor"], ["mp"]), (["exc", "exc", "drop"], ["mp"]),
+              # ... and the assignment over a pending promise against the ordinary waiters
+              (["ovw"], ["co", "bl"]), (["drop", "ovw", "dtor"], ["cb", "hv"]), (["val", "ovw"], ["bl"])]
+    if not ctx.quick:
+        mpjobs += [(r, ["mp"]) for r in (["val", "val", "exc"], ["mdes", "masg", "dtor"], ["drop", "drop"], ["val", "exc", "ovw"], ["masg", "val", "dtor"])]
+        mpjobs += [(["ovw", "ovw"], ["co"]), (["exc", "ovw", "dtor"], ["bl", "cb"])]
+    more += [{"rp": rp, "r": r, "w": w, "tag": "mp%d" % k, "max_paths": mp_paths} for k, (r, w) in enumerate(mpjobs)]
+    # the ARGUMENTS of refused calls, and the payload instances: a move-only instance-counted value type; every value-taking call
+    # form (operator(), set_value, async::start(promise), bind(x)()) passes an rvalue of the caller's own object - only the winner's is
+    # consumed, a loser constructs nothing (spec: arg, built; ArgConsumedOnlyByWinner, PayloadBuiltOnce, LosersLeaveNoTrace)
+    trkjobs = [(["val", "val"], ["co"]), (["val", "exc", "drop"], []), (["val", "val", "dtor"], ["bl"]), (["val", "mdes"], ["mp"]),
+               (["val", "drop"], ["cb", "hv"]), (["final"], ["co"]), (["val", "val", "val"], []), (["val", "ovw"], ["co"])]
+    trkbind = [(["val", "dtor"], ["bl"]), (["dtor"], ["co"]), (["val"], ["cb", "hv"])]
+    if not ctx.quick:
+        trkjobs += [(["val", "masg"], ["co", "bl"]), (["val", "val", "exc"], ["cb"]), (["val", "drop", "dtor"], ["hv"])]
+    for name in [n for n in builds if n.startswith("trk")]:
+        more += [{"rp": builds[name], "r": r, "w": w, "tag": "%s_%d" % (name, k), "max_paths": mp_paths, "trk": True} for k, (r, w) in enumerate(trkjobs)]
+        more += [{"rp": builds[name], "r": r, "w": w, "tag": "%sb_%d" % (name, k), "max_paths": mp_paths, "trk": True, "bind": True}
+                 for k, (r, w) in enumerate(trkbind if not ctx.quick else trkbind[:2])]
+    fl.run_jobs(ctx, more, par=8)
     # code -> spec: random schedules with more competing resolvers than the dumped graphs, validated as traces
     big = [(["val", "exc", "drop", "mdes"], ["co"]), (["val", "val", "exc", "dtor"], ["bl", "cb"]), (["drop", "mdes", "mdes", "val", "dtor"], [])]
+    if not ctx.quick:
+        big += [(["val", "ovw", "drop", "dtor"], ["co", "bl"]), (["val", "masg", "ovw"], ["mp"]), (["ovw", "ovw", "exc"], ["cb"])]
     for k, (r, w) in enumerate(big if not ctx.quick else big[:2]):
         fl.explore_validate(ctx, rp, r, w, "tv%d" % k, 150 if ctx.quick else 1500)
     ctx.assume("compare_exchange_weak does not fail spuriously (x86-64 lock cmpxchg); weak CAS is executed as strong under the controlled scheduler")
-    ctx.assume("value types int, int& and a 64-byte tracked object; payload abstracted to the identity of the resolver that wrote it")
+    ctx.assume("value types int, int&, a 64-byte copy-counted object and a move-only instance-counted object (natural alignment / alignas(64)); "
+               "payload abstracted to the identity of the resolver that wrote it")
+    ctx.assume("an assignment over the promise object (like its destruction) runs only when no other call is using the object")
